@@ -16,7 +16,8 @@
 EXTENDS Fx, Types
 
 Family(n) == CASE n \in {"linsrgb", "srgb", "hsl", "hsv", "hwb", "adobe", "linadobe", "p3", "linp3", "rec2020", "linrec2020", "rec709",
-                      "hsv_adobe", "hsl_p3", "hwb_rec2020", "prophoto", "linprophoto", "hsv_prophoto", "dcip3", "lindcip3"} -> "rgb"
+                      "hsv_adobe", "hsl_p3", "hwb_rec2020", "prophoto", "linprophoto", "hsv_prophoto", "dcip3", "lindcip3",
+                      "hsv_linsrgb", "hsl_linsrgb", "hwb_rec709"} -> "rgb"
                [] n \in {"oklab", "oklch", "okhsl", "okhsv", "okhwb"} -> "ok"
                [] OTHER -> "cie"
 IsLuma(n) == n \in {"linluma", "srgbluma"}
@@ -60,7 +61,7 @@ RangeOf(node, i) == LET b == DocBounds[node][i]
                        ELSE FxSub(DocFx(b[2]), DocFx(b[1]))
 (* index of the chroma-like component that conditions the hue (0: none) *)
 ChromaIdx(node) == CASE node \in {"lch", "lchuv", "oklch", "lch50"} -> 2
-                     [] node \in {"hsluv", "okhsl", "okhsv", "hsl", "hsv", "hsv_adobe", "hsl_p3", "hsv_prophoto"} -> 2
+                     [] node \in {"hsluv", "okhsl", "okhsv", "hsl", "hsv", "hsv_adobe", "hsl_p3", "hsv_prophoto", "hsv_linsrgb", "hsl_linsrgb"} -> 2
                      [] OTHER -> 0
 Fx360 == FxInt(360)
 (* circular distance of two angles in degrees *)
@@ -73,7 +74,7 @@ OwnNear(node, t, v1, v2) ==
     IF i = HueIdx(node)
     THEN (* hue: only where the chroma-like component is at least 5% of its range; 0.5 / 0.05 degrees *)
          LET ci == ChromaIdx(node)
-             wellcond == node \notin {"hwb", "okhwb", "hwb_rec2020"} /\ ci # 0 /\
+             wellcond == node \notin {"hwb", "okhwb", "hwb_rec2020", "hwb_rec709"} /\ ci # 0 /\
                          FxLe(FxDivInt(RangeOf(node, ci), 20), FxMin(FxOf(v1[ci]), FxOf(v2[ci])))
          IN wellcond => FxLe(HueDist(FxOf(v1[i]), FxOf(v2[i])), IF t = "f32" THEN FxRat(1, 2) ELSE FxRat(1, 20))
     ELSE FxLe(FxAbs(FxSub(FxOf(v1[i]), FxOf(v2[i]))), FxShr(RangeOf(node, i), OwnBits(t)))
